@@ -72,7 +72,7 @@ def resolve_local(func, expr):
 
 
 def call_name(call):
-    f = call.func
+    f = getattr(call, "func", None)
     if isinstance(f, ast.Attribute):
         return f.attr
     if isinstance(f, ast.Name):
@@ -81,7 +81,7 @@ def call_name(call):
 
 
 def recv_text(call):
-    f = call.func
+    f = getattr(call, "func", None)
     if isinstance(f, ast.Attribute):
         return utext(f.value)
     return None
